@@ -9,10 +9,11 @@
 EXTENDS AstLib, FiniteSets, TLC, Json
 
 CONSTANTS ProgId, MaxLen
-VARIABLES hist
+VARIABLES hist, mode
 
 I2 == TInt(2)
 I4 == TInt(4)
+LL(es) == [T |-> "List", elts |-> es]
 \* [def, pool]: pool = set of valuations, a valuation = sequence of <<name, constant-node>>
 Prog ==
   CASE ProgId = 1 -> [def |-> FunDef("f", <<ParamArg("c", TBool), Arg("a", TBool), Arg("b", TBool)>>,
@@ -49,10 +50,23 @@ Prog ==
                                         Assign("k", BoolOpN("Or", <<Name("k"), Cmp("Gt", Name("u"), CI(2))>>)),
                                         Ret(IfE(Name("k"), Name("u"), Name("c")))>>, I4),
                        pool |-> {<< <<"k", CB(b)>>, <<"c", CI(v)>> >> : b \in BOOLEAN, v \in {0, 1, 3}}]
+    \* a table (list of lists) as parameter: the value object handed to bind() has inner lists of its own
+    [] ProgId = 11 -> [def |-> FunDef("f", <<ParamArg("tb", TList(TList(TBool, 2), 2)), Arg("a", TBool), Arg("b", TBool)>>,
+                                      <<Assign("v", CB(FALSE)),
+                                        For("row", Name("tb"), <<Assign("v", BoolOpN("Or", <<Name("v"), BoolOpN("And", <<Cmp("Eq", Sub(Name("row"), CI(0)), Name("a")),
+                                                                                                                     Cmp("Eq", Sub(Name("row"), CI(1)), Name("b"))>>)>>))>>),
+                                        Ret(Name("v"))>>, TBool),
+                       pool |-> {<< <<"tb", LL(<<LL(<<CB(x), CB(FALSE)>>), LL(<<CB(FALSE), CB(y)>>)>>)>> >> : x \in BOOLEAN, y \in BOOLEAN}]
+    [] ProgId = 12 -> [def |-> FunDef("f", <<ParamArg("m", TList(TList(I2, 2), 2)), Arg("a", I2)>>,
+                                      <<Assign("u", CI(0)), For("r", Name("m"), <<For("x", Name("r"), <<Aug("u", "Add", Bin("BitAnd", Name("x"), Name("a")))>>)>>), Ret(Name("u"))>>, I4),
+                       pool |-> {<< <<"m", LL(<<LL(<<CI(x), CI(1)>>), LL(<<CI(2), CI(y)>>)>>)>> >> : x \in {0, 3}, y \in {1, 3}}]
 
-Init == hist = <<>>
+\* mode: how the harness hands the values over - "fresh": a new Python object per bind; "inplace": ONE object per
+\* parameter for the whole history, edited in place (element by element, inner lists too) before every later bind
+Init == hist = <<>> /\ mode \in {"fresh", "inplace"}
 Next == /\ Len(hist) < MaxLen
         /\ \E v \in Prog.pool : hist' = Append(hist, v)
-Spec == Init /\ [][Next]_hist
-Emit == Len(hist) >= 1 => PrintT(<<"H", ToJson([def |-> Prog.def, hist |-> hist])>>)
+        /\ UNCHANGED mode
+Spec == Init /\ [][Next]_<<hist, mode>>
+Emit == Len(hist) >= 1 /\ (mode = "inplace" => Len(hist) >= 2) => PrintT(<<"H", ToJson([def |-> Prog.def, hist |-> hist, mode |-> mode])>>)
 =============================================================================
